@@ -141,6 +141,8 @@ func (f *fnSpec) dynFor(j int) int {
 // run is the common body: record the execution, decide by script what to return.
 // It returns the output values (one per Outs entry), whether the struct pointer is nil, and the error.
 func (f *fnSpec) run(got []reflect.Value) (outs []reflect.Value, nilPtr bool, err error) {
+	raceMu.Lock() // the harness's own counters and event list; never held while library code runs
+	defer raceMu.Unlock()
 	nth := f.execs
 	f.execs++
 	var as []string
